@@ -238,7 +238,7 @@ func genMut(r *vf.Run) func(t *rapid.T) MutCase {
 			t.Fatalf("generator produced an unwalkable config: %v", err)
 		}
 		kind := rapid.SampledFrom([]string{mUnknown, mUnknown, mUnknown, mUnknown, mWrongType, mWrongType, mWrongType,
-			mConstraint, mConstraint, mMissing, mMissing, mBadType, mBadType}).Draw(t, "kind")
+			mConstraint, mConstraint, mConstraint, mMissing, mMissing, mBadType, mBadType}).Draw(t, "kind")
 		pickSite := func(ok func(*cg.Site) bool) *cg.Site {
 			var cands []*cg.Site
 			for _, s := range sites {
@@ -285,9 +285,10 @@ func genMut(r *vf.Run) func(t *rapid.T) MutCase {
 			m.Op, m.Key, m.Value = "set", name, cg.Encode(v)
 		case mWrongType, mConstraint:
 			if kind == mConstraint {
-				// the kind of validate tag first (min, min-time, required, endpoint: the tags are very unevenly
-				// spread over the fields), then a field carrying it, then the boundary class of the value
-				// (just below / far below / zero / port 0 / port 65536 / ...), then the value
+				// the validate tag and boundary class of the value first (min just below / far below, min-time zero /
+				// just below / negative, required zero, endpoint port 0 / port 65536 / empty / non-numeric / no port /
+				// bad host: the tags are very unevenly spread over the fields), then a field carrying that tag, then
+				// the value
 				var all []fieldAt
 				for _, s := range sites {
 					for _, f := range s.Fields {
@@ -312,33 +313,20 @@ func genMut(r *vf.Run) func(t *rapid.T) MutCase {
 						}
 					}
 				}
-				byTag := map[string][]fieldAt{}
-				var tags []string
-				for _, c := range all {
-					seen := map[string]bool{}
-					for _, l := range violLabels(c.f) {
-						tg := tagOf(l)
-						if seen[tg] {
-							continue
-						}
-						seen[tg] = true
-						if len(byTag[tg]) == 0 {
-							tags = append(tags, tg)
-						}
-						byTag[tg] = append(byTag[tg], c)
-					}
-				}
-				sort.Strings(tags)
-				tg := tags[rapid.IntRange(0, len(tags)-1).Draw(t, "tag")]
-				cands := byTag[tg]
-				c := cands[rapid.IntRange(0, len(cands)-1).Draw(t, "field")]
+				byLabel := map[string][]fieldAt{}
 				var labels []string
-				for _, l := range violLabels(c.f) {
-					if tagOf(l) == tg {
-						labels = append(labels, l)
+				for _, c := range all {
+					for _, l := range violLabels(c.f) {
+						if len(byLabel[l]) == 0 {
+							labels = append(labels, l)
+						}
+						byLabel[l] = append(byLabel[l], c)
 					}
 				}
+				sort.Strings(labels)
 				label := labels[rapid.IntRange(0, len(labels)-1).Draw(t, "boundary")]
+				cands := byLabel[label]
+				c := cands[rapid.IntRange(0, len(cands)-1).Draw(t, "field")]
 				var vs []any
 				for _, v := range violationsOf(c.f) {
 					if v.label == label {
